@@ -117,7 +117,7 @@ let kinds line =
    output: "cbs=<0|1> st=<status|-> unreg=<n>" *)
 let api_case line =
   match split_on ' ' line with
-  | [api; fill; fate; wres] ->
+  | api :: fill :: fate :: wres :: _ ->
       let a = match api with
         | "work" -> CWork true | "work0" -> CWork false | "rnd" -> CRandom
         | "gai" -> CGetaddrinfo | "gni" -> CGetnameinfo
@@ -156,7 +156,19 @@ let fork_case fixed line =
         (zs (verdict c fin))
   | _ -> failwith ("bad fork case " ^ line)
 
+(* threshold.  case: "<from> <to>"; output "n:threshold n" for every n of the range *)
+let threshold_case line =
+  match split_on ' ' line with
+  | [a; b] ->
+      let a = int_of_string a and b = int_of_string b in
+      String.concat " " (List.init (b - a + 1) (fun i ->
+        Printf.sprintf "%d:%d" (a + i) (int_of_nat (threshold (nat_of_int (a + i))))))
+  | _ -> failwith "bad threshold case"
+
 let () =
+  if Array.length Sys.argv > 1 && Sys.argv.(1) = "threshold" then
+    iter_lines (fun l -> print_string (try threshold_case l with Failure m -> "bad " ^ m); print_newline ())
+  else
   if Array.length Sys.argv > 1 && (Sys.argv.(1) = "api" || Sys.argv.(1) = "fork" || Sys.argv.(1) = "forkfix") then begin
     let f = match Sys.argv.(1) with "api" -> api_case | "fork" -> fork_case false | _ -> fork_case true in
     iter_lines (fun l -> print_string (try f l with Failure m -> "bad " ^ m); print_newline ())
